@@ -307,6 +307,61 @@ theorem finv_enabled (s : State) (h : FInv s) (hnd : ¬ AllDone s) : ∃ i, Enab
     | write x => exact ⟨i, _, _, ht, trivial⟩
     | tau => exact ⟨i, _, _, ht, trivial⟩
 
+/-! ## … and every run can be completed -/
+
+def totalRem (s : State) : Nat := (s.rem.map List.length).sum
+
+theorem sum_length_set {α : Type} (xs : List (List α)) (i : Nat) (a : α) (r : List α)
+    (h : xs[i]? = some (a :: r)) :
+    ((xs.set i r).map List.length).sum + 1 = (xs.map List.length).sum := by
+  induction xs generalizing i with
+  | nil => simp at h
+  | cons x xs ih =>
+    cases i with
+    | zero =>
+      simp only [List.getElem?_cons_zero, Option.some.injEq] at h
+      subst h
+      simp only [List.set_cons_zero, List.map_cons, List.sum_cons, List.length_cons]
+      omega
+    | succ i =>
+      simp only [List.getElem?_cons_succ] at h
+      have := ih i h
+      simp only [List.set_cons_succ, List.map_cons, List.sum_cons]
+      omega
+
+theorem enabled_step_rem (wv : WriteFn) (s : State) (i : Nat) (h : Enabled s i) :
+    ∃ a r, s.rem[i]? = some (a :: r) ∧ (step wv s i).rem = s.rem.set i r := by
+  obtain ⟨a, r, hr, hen⟩ := h
+  refine ⟨a, r, hr, ?_⟩
+  cases a <;> simp_all [step]
+
+theorem enabled_step_totalRem (wv : WriteFn) (s : State) (i : Nat) (h : Enabled s i) :
+    totalRem (step wv s i) + 1 = totalRem s := by
+  obtain ⟨a, r, hr, hstep⟩ := enabled_step_rem wv s i h
+  unfold totalRem
+  rw [hstep]
+  exact sum_length_set s.rem i a r hr
+
+theorem finv_can_finish (wv : WriteFn) (n : Nat) :
+    ∀ s : State, FInv s → totalRem s = n → ∃ more : List Nat, AllDone (runFrom wv s more) := by
+  induction n with
+  | zero =>
+    intro s hf hn
+    refine ⟨[], ?_⟩
+    apply Classical.byContradiction
+    intro hnd
+    obtain ⟨i, hi⟩ := finv_enabled s hf hnd
+    have := enabled_step_totalRem wv s i hi
+    omega
+  | succ n ih =>
+    intro s hf hn
+    by_cases hd : AllDone s
+    · exact ⟨[], hd⟩
+    · obtain ⟨i, hi⟩ := finv_enabled s hf hd
+      have hlen := enabled_step_totalRem wv s i hi
+      obtain ⟨more, hmore⟩ := ih (step wv s i) (finv_step wv s i hf) (by omega)
+      exact ⟨i :: more, hmore⟩
+
 /-! ## one critical section per operation ⇒ every schedule is a sequential execution -/
 
 def BInv (l : Nat) (s : State) : Prop :=
